@@ -75,7 +75,7 @@ ProbeCalls(c, exts, hit, dev, caches) ==
       last  == IF hit = 0 THEN Len(exts) ELSE hit
       exs   == [i \in 1..last |-> Call("Exists", c, exts[i])]
       open  == IF hit = 0 THEN <<>> ELSE <<Call("Open", c, exts[hit])>>
-      put   == IF hit # 0 /\ caches /\ ~dev THEN <<Call("Put", c, "")>> ELSE <<>>
+      put   == IF hit # 0 /\ caches /\ ~dev THEN <<Call("Put", c, exts[hit])>> ELSE <<>>
   IN gets \o exs \o open \o put
 
 ---------------------------------------------------------------------------
@@ -91,22 +91,22 @@ Extend(s) == /\ phase = "grow"
              /\ segs' = Append(segs, s)
              /\ UNCHANGED <<phase, obs>>
 
-Finish(abs, entry, depth, exts, hit) ==
+Finish(abs, entry, depth, exts, hit, dev) ==
   /\ phase = "grow"
   /\ Len(segs) >= 1
   /\ Relative(entry) \/ depth = 0
   /\ LET refdir == IF Relative(entry) THEN RefDir(depth) ELSE <<>>
          c      == Canon(refdir, abs, segs)
      IN obs' = [abs |-> abs, segs |-> segs, entry |-> entry, depth |-> depth,
-                exts |-> exts, hit |-> hit, canon |-> c,
-                calls |-> ProbeCalls(c, exts, hit, FALSE, entry # "ParseExtends")]
+                exts |-> exts, hit |-> hit, dev |-> dev, canon |-> c,
+                calls |-> ProbeCalls(c, exts, hit, dev, entry # "ParseExtends")]
   /\ phase' = "done"
   /\ UNCHANGED segs
 
 Next == \/ \E s \in Seg : Extend(s)
         \/ \E abs \in BOOLEAN, entry \in Entries, depth \in 0..MaxDepth,
               exts \in ExtLists :
-              \E hit \in 0..Len(exts) : Finish(abs, entry, depth, exts, hit)
+              \E hit \in 0..Len(exts), dev \in BOOLEAN : Finish(abs, entry, depth, exts, hit, dev)
 
 Spec == Init /\ [][Next]_vars
 
